@@ -943,7 +943,9 @@ func c19Perms(n int) [][]int {
 }
 
 var c19GridQuick = []string{"1.0.0-alpha", "1.0.0-alpha.beta", "1.0.0", "1.2.0", "1.10.0", "2.0.0-beta",
-	"2.0.0-rc1", "2.0.0", "2.0.0+build5", "3.0", "", "x.y"}
+	"2.0.0-rc1", "2.0.0", "2.0.0+build5", "3.0", "", "x.y",
+	// identifiers are case sensitive (ASCII order: capitals first): a version is compared as it was given
+	"1.0.0-RC1", "2.0.0-Beta"}
 
 var c19GridThorough = append(append([]string{}, c19GridQuick...),
 	"0.9.9", "1.0.0-alpha.1", "1.0.0-beta", "1.0.0-beta.2", "1.0.0-beta.11", "1.0.0-rc.1", "1.0.1", "1.2",
